@@ -5,6 +5,7 @@ package labelmap
 import (
 	"github.com/janelia-flyem/dvid/datastore"
 	"github.com/janelia-flyem/dvid/datatype/common/labels"
+	"github.com/janelia-flyem/dvid/datatype/common/proto"
 	"github.com/janelia-flyem/dvid/dvid"
 	"github.com/janelia-flyem/dvid/zzverif/vh"
 	"github.com/janelia-flyem/dvid/zzverif/vstore"
@@ -38,4 +39,21 @@ func VerifPutBlock(d *Data, s *vstore.Store, v dvid.VersionID, bcoord dvid.Chunk
 	vh.Assert(err == nil, "block serialises")
 	ctx := datastore.NewVersionedCtx(d, v)
 	vh.Assert(s.Put(ctx, NewBlockTKeyByCoord(0, bcoord.ToIZYXString()), val) == nil, "block stored")
+	d.updateBlockMaxLabel(v, blk) // as the ingest path does: new bodies get labels above every ingested one
+}
+
+// VerifSetMapping records supervoxel -> body in the mapping cache at version v (as a past merge did).
+func VerifSetMapping(d *Data, v dvid.VersionID, supervoxel, body uint64) {
+	iMap.RLock()
+	vc := iMap.maps[d.DataUUID()]
+	iMap.RUnlock()
+	vc.setMapping(v, supervoxel, body)
+}
+
+// VerifPutIndex stores a body's label index: one block with the given supervoxel voxel counts.
+func VerifPutIndex(d *Data, v dvid.VersionID, body uint64, bcoord dvid.ChunkPoint3d, counts map[uint64]uint32) {
+	idx := new(labels.Index)
+	idx.Label = body
+	idx.Blocks = map[uint64]*proto.SVCount{labels.EncodeBlockIndex(bcoord[0], bcoord[1], bcoord[2]): {Counts: counts}}
+	vh.Assert(putCachedLabelIndex(d, v, idx) == nil, "body index stored")
 }
